@@ -138,3 +138,24 @@ def _(left, right):
              if "disparity" in left else True)
     raises_iff(Exception, dataset_refused(left) or dataset_refused(right) or "disparity" not in left
                or left["im"].data.shape[-2:] != right["im"].data.shape[-2:])
+
+
+# the files of the input section: both images of the same size, and every optional raster that is given (not None) of ITS image's size
+@contract("pandora.check_configuration.check_images", props=["C17"])
+def _(user_cfg):
+    types(user_cfg="opaque")
+    type_cases(user_cfg=[
+        {"left": {"img": "str"}, "right": {"img": "str"}},
+        {"left": {"img": "str", "mask": "str"}, "right": {"img": "str", "mask": "none"}},
+        {"left": {"img": "str", "mask": "none", "classif": "str"}, "right": {"img": "str", "mask": "str", "segm": "str"}},
+        {"left": {"img": "str", "mask": "str", "classif": "str", "segm": "str"},
+         "right": {"img": "str", "mask": "str", "classif": "str", "segm": "str"}},
+        {"left": {"img": "str"}, "right": {"img": "str", "classif": "str"}}])
+    option(no_fuzz=True)
+    raises_iff(AttributeError,
+               rasterio_open(user_cfg["left"]["img"]).width != rasterio_open(user_cfg["right"]["img"]).width
+               or rasterio_open(user_cfg["left"]["img"]).height != rasterio_open(user_cfg["right"]["img"]).height
+               or any(k in user_cfg[side] and user_cfg[side][k] is not None
+                      and (rasterio_open(user_cfg[side][k]).width != rasterio_open(user_cfg[side]["img"]).width
+                           or rasterio_open(user_cfg[side][k]).height != rasterio_open(user_cfg[side]["img"]).height)
+                      for side in ["left", "right"] for k in ["mask", "classif", "segm"]))
